@@ -89,7 +89,7 @@ TWO = ["CO_SSDO_N=2", "SDO_DS2=1000"]
 PROPS["C02"] = {
     "level": "model_checking",
     "technique": "deviation-bounded exhaustive enumeration of conforming download clients (all modes, size indications, last-segment fills, lost-segment placements, two-server interleavings) against the real server with the reference server in lockstep",
-    "text": 'Every conforming download dialogue of the enumerated space is executed against the real server (real 889-byte buffer): domain sizes 1..30, 7k+-1 up to 71, 885..900, 1777..1780, 2000, 3999, 4000 (quick: 28 of them) x payload length {S, S-1, 1, S+1} x {expedited s=1/s=0, segmented, block} x size announced or not, position-dependent payload; block mode additionally with every placement of <=1 (quick) / <=2 (thorough) lost segment transmissions followed by the prescribed retransmission; integers direct/referenced/node-id-relative with lengths size-1..size+1; two servers: every interleaving of a scripted transfer on the second server with a segmented or block transfer on the first; non-initial states: the dialogues (11 sizes quick / the size list up to 900 thorough, lengths S and S-1, all modes, block mode with every single lost transmission for S <= 100) are repeated after an earlier transfer to the same object - segmented or block download, segmented or block upload - that the client completed or abandoned with a client abort after k = 1..4 (quick) / 1..7 (thorough) requests. Oracle: reference server in lockstep (every response field CiA 301 fixes) plus end-to-end comparison of the object bytes, untouched tail and refusal of over-long payloads.',
+    "text": 'Every conforming download dialogue of the enumerated space is executed against the real server (real 889-byte buffer): domain sizes 1..30, 7k+-1 up to 71, 885..900, 1777..1780, 2000, 3999, 4000 (quick: 28 of them) x payload length {S, S-1, 1, S+1} x {expedited s=1/s=0, segmented, block} x size announced or not, position-dependent payload; block mode additionally with every placement of <=1 (quick) / <=2 (thorough) lost segment transmissions followed by the prescribed retransmission; integers direct/referenced/node-id-relative (incl. direct 8/16/32-bit objects whose content is 0) with lengths size-1..size+1; two servers: every interleaving of a scripted transfer on the second server with a segmented or block transfer on the first, and with the roles swapped (the long transfer on server 1 while server 0 is idle or busy); non-initial states: the dialogues (11 sizes quick / the size list up to 900 thorough, lengths S and S-1, all modes, block mode with every single lost transmission for S <= 100) are repeated after an earlier transfer to the same object - segmented or block download, segmented or block upload - that the client completed or abandoned with a client abort after k = 1..4 (quick) / 1..7 (thorough) requests. Oracle: reference server in lockstep (every response field CiA 301 fixes) plus end-to-end comparison of the object bytes, untouched tail and refusal of over-long payloads.',
     "note": 'losing the final segment of a block is not recoverable by a conforming client and is excluded; for 4000-byte transfers the second loss is placed in the neighbourhood of the first and at block boundaries',
     "jobs": {
         "quick": [J("c02", 0, defs=REAL4K, deadline=120), J("c02", 1, defs=REAL4K), J("c02", 2, defs=TWO, deadline=120), J("c02", 3, defs=REAL4K, deadline=120)],
@@ -100,7 +100,7 @@ PROPS["C02"] = {
 PROPS["C03"] = {
     "level": "model_checking",
     "technique": "deviation-bounded exhaustive enumeration of conforming upload clients (segmented; block with every block size, every acknowledge position per block, block size changes) against the real server with the reference server in lockstep",
-    "text": 'Every conforming upload dialogue of the enumerated space runs against the real server: domains and strings of the C02 size list with two contents each, integers and fixed strings; segmented/expedited as the server chooses; block mode with every block size 1..127 (sizes <= 200; {1,2,3,7,63,64,126,127} above) and, per block, every acknowledge position k in 0..sent combined with a block size change in {1,2,b-1,b+1,127} - one deviation per transfer (quick) or two (thorough, sizes <= 200); each transfer is run twice back-to-back; non-initial states: uploads (segmented, block sizes {1,2,3,7,127}, first block acknowledged fully / not at all / partly) repeated after an earlier transfer - segmented or block download to another object, segmented or block upload of the same object - that the client completed or abandoned with a client abort after k = 1..4 (quick) / 1..7 (thorough) requests. Oracle: reference server in lockstep (sequence numbers, last flag, n, announced size, data per segment) plus end-to-end comparison of the assembled bytes and length.',
+    "text": 'Every conforming upload dialogue of the enumerated space runs against the real server: domains and strings of the C02 size list with two contents each, integers (referenced, direct, node-id relative, direct with content 0 in all three widths) and fixed strings; segmented/expedited as the server chooses; block mode with every block size 1..127 (sizes <= 200; {1,2,3,7,63,64,126,127} above) and, per block, every acknowledge position k in 0..sent combined with a block size change in {1,2,b-1,b+1,127} - one deviation per transfer (quick) or two (thorough, sizes <= 200); each transfer is run twice back-to-back; non-initial states: uploads (segmented, block sizes {1,2,3,7,127}, first block acknowledged fully / not at all / partly) repeated after an earlier transfer - segmented or block download to another object, segmented or block upload of the same object - that the client completed or abandoned with a client abort after k = 1..4 (quick) / 1..7 (thorough) requests. Oracle: reference server in lockstep (sequence numbers, last flag, n, announced size, data per segment) plus end-to-end comparison of the assembled bytes and length.',
     "note": 'deviations are placed in the first 64 blocks of a transfer; quick tier uses boundary acknowledge positions for objects > 200 bytes',
     "jobs": {
         "quick": [J("c03", c, defs=REAL4K, deadline=150) for c in range(3, 17)] + [J("c03", 2, defs=REAL4K), J("c03", 17, defs=REAL4K, deadline=150)],
@@ -111,7 +111,7 @@ PROPS["C03"] = {
 PROPS["C09"] = {
     "level": "model_checking",
     "technique": "explicit-state BFS to a fixpoint over NMT commands, API mode changes and one probe frame per service, against a reference CiA 301 slave state machine with a per-state gating table",
-    "text": "Node with one of every service (SDO server, asynchronous RPDO, event and synchronous TPDO, SYNC consumer, heartbeat producer and consumer, EMCY, LSS). Alphabet: NMT command specifiers {1,2,128,129,130,0,3,127,255} x target {own id, 0, other}; CONmtSetMode, CONodeStart, CONmtReset(node/com), CONodeStop; probe frames for SDO, RPDO, SYNC, heartbeat of a monitored and an unmonitored node, LSS switch/inquire, a foreign identifier and the node's own transmit identifiers; COEmcySet/Clr, COTPdoTrigPdo, tick. After every step: node mode, the sequence of mode-change callbacks, the reset-request callback, the number and content of boot-up frames, which service reacted (frames per identifier, mapped object, PDO callback), and how often the frame was handed to the application callback are compared with the reference. The reachable state set is closed (fixpoint) for node ids 1, 5 and 127, started and unstarted. A fifth configuration replaces the heartbeat services by a TPDO that lives on timers (event time 3 ticks, inhibit time 2 ticks, application trigger): its frames may appear only while the reference FSM is OPERATIONAL, whichever timer or trigger path produces them.",
+    "text": "Node with one of every service (SDO server, asynchronous RPDO, event and synchronous TPDO, SYNC consumer, heartbeat producer and consumer, EMCY, LSS). Alphabet: NMT command specifiers {1,2,128,129,130,0,3,127,255} x target {own id, 0, other, 80h | own id, 80h}; CONmtSetMode, CONodeStart, CONmtReset(node/com), CONodeStop; probe frames for SDO, RPDO, SYNC, heartbeat of a monitored and an unmonitored node, LSS switch/inquire, a foreign identifier and the node's own transmit identifiers; COEmcySet/Clr, COTPdoTrigPdo, tick. After every step: node mode, the sequence of mode-change callbacks, the reset-request callback, the number and content of boot-up frames, which service reacted (frames per identifier, mapped object, PDO callback), and how often the frame was handed to the application callback are compared with the reference. The reachable state set is closed (fixpoint) for node ids 1, 5 and 127, started and unstarted. A fifth configuration replaces the heartbeat services by a TPDO that lives on timers (event time 3 ticks, inhibit time 2 ticks, application trigger): its frames may appear only while the reference FSM is OPERATIONAL, whichever timer or trigger path produces them.",
     "note": "heartbeat timing is not compared here (C10), only content and at most one per tick; in STOPPED the delivery of unclaimed frames to the application is unconstrained as the statement says; after CONodeStop only safety is judged; NMT frames carry DLC 2",
     "jobs": {
         "quick": [J("c09", c, depth=80, deadline=120) for c in range(5)],
@@ -194,7 +194,7 @@ PROPS["C13"] = {
 PROPS["C14"] = {
     "level": "model_checking",
     "technique": "explicit-state BFS over expedited SDO write histories to the PDO communication and mapping parameters against a reference model of the CiA 301 preconditions, with an activation probe at every activation",
-    "text": "Four RPDOs and four TPDOs; the pair number n under reconfiguration is 0, 1 or 3 (configurations: n x {PRE-OPERATIONAL, started OPERATIONAL}), the three other pairs are valid bystanders on their own identifiers and objects. 94 events: per PDO the COB-ID written with {valid, invalid, other id valid, other id invalid, extended, RTR-allowed/extended}; transmission type {1,254,255}; mapping count {0,1,2,8,9}; mapping entries 1, 2 and 8 written with {mappable 8/16/32-bit object, non-mappable, read-only, write-only, non-existing object, 64-bit length, length != object width}; NMT start / pre-op. Per step: accept/refuse verdict, the abort codes the property set fixes (0609 0030h, 0604 0041h, 0604 0042h), and the complete stored configuration (a refused write changes nothing). At every activation (entering OPERATIONAL, re-validation while OPERATIONAL) the PDO is probed: the TPDO frame has DLC = sum of the mapped bytes <= 8 and carries the mapped values, an RPDO frame writes exactly the mapped objects; public ObjNum/Size[] stay within 8. After an invalidation while OPERATIONAL the PDO must neither transmit on a trigger nor take a frame on its old identifier, and after every COB-ID write and every entry into OPERATIONAL each bystander TPDO must still send exactly its configured frame and each bystander RPDO write exactly its object (index arithmetic 14xxh/16xxh/18xxh/1Axxh + n versus the runtime slot n).",
+    "text": "Four RPDOs and four TPDOs; the pair number n under reconfiguration is 0, 1 or 3 (configurations: n x {PRE-OPERATIONAL, started OPERATIONAL}), the three other pairs are valid bystanders on their own identifiers and objects. 94 events: per PDO the COB-ID written with {valid, invalid, other id valid, other id invalid, extended, RTR-allowed/extended}; transmission type {1,254,255}; mapping count {0,1,2,8,9}; mapping entries 1, 2 and 8 written with {mappable 8/16/32-bit object, non-mappable, read-only, write-only, non-existing object, 64-bit length, length != object width}; NMT start / pre-op. Per step: accept/refuse verdict, the abort codes the property set fixes (0609 0030h, 0604 0041h, 0604 0042h), and the complete stored configuration (a refused write changes nothing). At every activation (entering OPERATIONAL, re-validation while OPERATIONAL) the PDO is probed: the TPDO frame has DLC = sum of the mapped bytes <= 8 and carries the mapped values, an RPDO frame writes exactly the mapped objects; public ObjNum/Size[] stay within 8; then, on a copy of the state, 8 ticks pass - a TPDO activated with a synchronous type must stay silent without SYNC, one activated as event-driven (its event time is 2 ms) must send. After an invalidation while OPERATIONAL the PDO must neither transmit on a trigger nor take a frame on its old identifier, and after every COB-ID write and every entry into OPERATIONAL each bystander TPDO must still send exactly its configured frame and each bystander RPDO write exactly its object (index arithmetic 14xxh/16xxh/18xxh/1Axxh + n versus the runtime slot n).",
     "note": "verdicts the statement leaves open are accepted either way: invalidating and changing the id in one write, rewriting the identical valid COB-ID, a count that covers an unset (zero) entry, mapping lengths that differ from the object width; the abort code is free for 'PDO is valid' / 'count is not zero' refusals; depth-bounded",
     "jobs": {
         "quick": [J("c14", c, depth=6, deadline=100) for c in range(6)],
@@ -259,7 +259,7 @@ CL2 = ["CO_CSDO_N=2", "C19_CLIENT=1"]
 PROPS["C19"] = {
     "level": "model_checking",
     "technique": "deviation-bounded exhaustive enumeration of SDO server behaviours against the real SDO client (sequences of back-to-back transfers, one or two deviations placed at every response step), reference client/server with callback, buffer-guard and timer-pool accounting",
-    "text": "The harness plays the SDO server for client 0: a conforming reference server (expedited for <= 4 bytes, segmented otherwise, junk in unused bytes) plus 16 deviation kinds that can be placed at every response step k of a transfer: abort with matching multiplexer (an ordinary code, and each of the six codes the client generates itself: 0504 0000h, 0503 0000h, 0504 0001h, 0604 0043h, 0607 0012h, 0607 0013h) / other-index / other-sub-index multiplexer, silence, late answer while idle, late answer into the next transfer, wrong toggle, four foreign response types per phase, announced size +-1, expedited answer to a segmented request and vice versa, more data than announced (missing c bit + extra segments, over-long last segment), early c bit, request while busy (both API calls), five kinds of response while idle. A case is a sequence of up to 2 (quick) / 3 (thorough) transfers - direction x every size 1..300, 889, 1000, 1999, 2000 x timing profile (timeout, server delay) in {(2,0),(2,1),(5,0),(5,4)} ticks - separated by idle gaps {0, timeout-1, timeout, timeout+1}, with <= 1 (quick) / <= 2 (thorough) deviations per sequence; plus a 70 s timeout (silent server and a server answering after 65.6 s), a long-timeout transfer behind a short one, and a disabled client (1280h:1/:2 bit 31). The smallest and largest size shards, the probe-pair part and the special part are repeated in a build with two clients (CO_CSDO_N=2) in which the transfers run on client 1 (1281h, server node 6) while client 0 is an idle bystander. User buffers are exact-size heap blocks GUARD|size|GUARD checked after every frame. Oracle per step: request frames on 605h equal the reference client's (initiate, announced size, toggle, n, c, data in order); exactly one completion callback per accepted request with code 0 / the server's abort code / 0504 0000h plus exactly one abort frame after [timeout, timeout+1] ticks without a response; upload buffer equals the server's bytes (re-checked at the end of the sequence); busy => CO_ERR_SDO_BUSY without effect; disabled => refused without frame, callback or timer; responses while idle have no effect; timer action and event occupancy return to the pre-request value; nothing happens in an idle tail after the last transfer.",
+    "text": "The harness plays the SDO server for client 0: a conforming reference server (expedited for <= 4 bytes, segmented otherwise, junk in unused bytes) plus 16 deviation kinds that can be placed at every response step k of a transfer: abort with matching multiplexer (an ordinary code, and each of the six codes the client generates itself: 0504 0000h, 0503 0000h, 0504 0001h, 0604 0043h, 0607 0012h, 0607 0013h) / other-index / other-sub-index multiplexer, silence, late answer while idle, late answer into the next transfer, wrong toggle, four foreign response types per phase, announced size +-1, expedited answer to a segmented request and vice versa, more data than announced (missing c bit + extra segments, over-long last segment), early c bit, request while busy (both API calls), five kinds of response while idle. A case is a sequence of up to 2 (quick) / 3 (thorough) transfers - direction x every size 1..300, 889, 1000, 1999, 2000 x timing profile (timeout, server delay) in {(2,0),(2,1),(5,0),(5,4)} ticks; uploads additionally from servers that put only 6 (every size) or 4 or 1 (sizes <= 40) data bytes into their non-final segments - separated by idle gaps {0, timeout-1, timeout, timeout+1}, with <= 1 (quick) / <= 2 (thorough) deviations per sequence; plus a 70 s timeout (silent server and a server answering after 65.6 s), a long-timeout transfer behind a short one, and a disabled client (1280h:1/:2 bit 31). The smallest and largest size shards, the probe-pair part and the special part are repeated in a build with two clients (CO_CSDO_N=2) in which the transfers run on client 1 (1281h, server node 6) while client 0 is an idle bystander. User buffers are exact-size heap blocks GUARD|size|GUARD checked after every frame. Oracle per step: request frames on 605h equal the reference client's (initiate, announced size, toggle, n, c, data in order); exactly one completion callback per accepted request with code 0 / the server's abort code / 0504 0000h plus exactly one abort frame after [timeout, timeout+1] ticks without a response; upload buffer equals the server's bytes (re-checked at the end of the sequence); busy => CO_ERR_SDO_BUSY without effect; disabled => refused without frame, callback or timer; responses while idle have no effect; timer action and event occupancy return to the pre-request value; nothing happens in an idle tail after the last transfer.",
     "note": "where CiA 301 does not fix the client's reaction an allowed set is used: a malformed response may be ignored (then the timeout path is checked) or end the transfer once with a non-zero code and at most one abort frame - never code 0; an object smaller than the buffer or a segmented answer to a <= 4-byte upload may complete with the server's bytes as a prefix or be refused; an abort with a foreign multiplexer may be ignored or taken. The timeout is per response. NMT resets during a transfer are C20's. Second/third transfers after a deviation use 8 probe transfers, not every size",
     "jobs": {
         "quick": [J("c19", c, deadline=150) for c in range(26)] + [J("c19", c, defs=CL2, deadline=150) for c in (0, 1, 14, 15, 24, 25)],
@@ -270,7 +270,7 @@ PROPS["C19"] = {
 PROPS["C20"] = {
     "level": "model_checking",
     "technique": "metamorphic differential exploration: BFS over a mixed history alphabet; in every reached state the node after an NMT reset is compared, under every probe sequence, with a freshly initialised node holding the same dictionary values (the implementation is its own reference)",
-    "text": "Node with heartbeat producer and two consumers, SYNC (consumer or producer), EMCY, an asynchronous RPDO, an event-driven and a synchronous TPDO, SDO server, SDO client, LSS, an application timer; two further configurations keep 1017h in a communication parameter group with an NVM image (1010h:1, event 'save'), so that RAM and NVM differ at the reset and the fresh node loads the NVM image. 36 (37) history events: ticks; SDO writes to 1017h, 1016h, 1005h, 1006h, 1014h, 1800h:1/:3/:5; heartbeat frames; SDO transfers left open in every phase (segmented and block, up and down); a busy SDO client and its response; COEmcySet/Clr; LSS configure node-id + store; NMT start/stop/pre-op; application timer create/delete; RPDO frame; TPDO trigger. In every discovered state s (on copies): A = s followed by NMT reset communication (configurations 0,2) or reset node (1,3); B = the pristine pre-initialisation memory image into which the dictionary values of A (not the run-time fields next to them), the NVM image and the LSS store are copied, then CONodeInit + CONodeStart. For every probe sequence of length <= 2 (3) over 14 probes (SDO reads, SYNC, heartbeat of a monitored node, RPDO, NMT start, LSS inquiry, SDO client transfer, 4 ticks, segmented upload, COEmcySet, TPDO trigger, SDO write+read) the complete traces (frames per tick, callbacks, NMT mode, node id) of A and B must be equal; the timer slots in use after the reset must equal those of the fresh node plus the live application timers.",
+    "text": "Node with heartbeat producer and two consumers, SYNC (consumer or producer), EMCY, an asynchronous RPDO, an event-driven and a synchronous TPDO, SDO server, SDO client, LSS, an application timer; two further configurations keep 1017h in a communication parameter group with an NVM image (1010h:1, event 'save'), so that RAM and NVM differ at the reset and the fresh node loads the NVM image. 36 (37) history events: ticks; SDO writes to 1017h, 1016h, 1005h, 1006h, 1014h, 1800h:1/:3/:5; heartbeat frames; SDO transfers left open in every phase (segmented and block, up and down); a busy SDO client and its response; COEmcySet/Clr of error 2 and COEmcySet of error 9 (another status byte); LSS configure node-id + store; NMT start/stop/pre-op; application timer create/delete; RPDO frame; TPDO trigger. In every discovered state s (on copies): A = s followed by NMT reset communication (configurations 0,2) or reset node (1,3); B = the pristine pre-initialisation memory image into which the dictionary values of A (not the run-time fields next to them), the NVM image and the LSS store are copied, then CONodeInit + CONodeStart. For every probe sequence of length <= 2 (3) over 14 probes (SDO reads, SYNC, heartbeat of a monitored node, RPDO, NMT start, LSS inquiry, SDO client transfer, 4 ticks, segmented upload, COEmcySet, TPDO trigger, SDO write+read) the complete traces (frames per tick, callbacks, NMT mode, node id) of A and B must be equal; the timer slots in use after the reset must equal those of the fresh node plus the live application timers.",
     "note": "1003h (error history) is not part of the dictionary: whether a reset clears it is not fixed by the statement; application timer callbacks are removed from the traces; depth-bounded",
     "jobs": {
         "quick": [J("c20", c, depth=4, deadline=100) for c in range(6)],
